@@ -572,9 +572,10 @@ OnSnapshotChunk(x, n, from, m) ==
               ELSE IF done THEN [s1 EXCEPT !.incoming = [has |-> FALSE],
                                            !.snap = IF WellFormed(buf) THEN buf[1].sid ELSE "garbage",
                                            \* a forked writer that is still dumping an older state is killed first: it must not
-                                           \* replace the snapshot installed now when it finishes
-                                           !.child = IF Fork /\ DumpFile /\ @.st = "run" THEN [st |-> "none"] ELSE @,
-                                           !.serPid = IF Fork /\ DumpFile /\ s1.child.st = "run" THEN 0 ELSE @]
+                                           \* replace the snapshot installed now when it finishes (one that has ended and has
+                                           \* not been reaped yet is reaped here: its outcome is never reported)
+                                           !.child = IF Fork /\ DumpFile /\ s1.serPid = 1 THEN [st |-> "none"] ELSE @,
+                                           !.serPid = IF Fork /\ DumpFile /\ s1.serPid = 1 THEN 0 ELSE @]
               ELSE [s1 EXCEPT !.incoming = [has |-> TRUE, known |-> TRUE, chunks |-> buf]]
         xl == IF done THEN LoadSnapshot(WithS(xa, s2), n, TRUE) ELSE WithS(xa, s2)
         s3 == xl.s
